@@ -34,7 +34,7 @@ func TestMain(m *testing.M) {
 		os.Exit(helperMain(f, os.Getenv("C19_HELPER_DIR"))) // child of the real-kill cross-check
 	}
 	evid.Main(m, "C19", "fault_enumeration",
-		"rapid-generated fakedb databases (1-3 named graphs incl. names that need path escaping, <= 12 entities in total, ids with gaps and interleaved between graphs, property values of every JSON shape incl. keys the scrubber rewrites) x compression {none,gzip,zstd} x batch size and shard size drawn from {1,2,3,count-1,count,count+1,count/2,1000} x scrub {none, full}. Per case ONE uninterrupted dump is run with hook H2 active; the output directory is captured before EVERY file-system mutation (fsStep site) = what a kill -9 there leaves; torn variants (file empty / half written) are derived for every write-type step; in addition the dump is re-run with a database error at EVERY read transaction and at EVERY delivered record, with a context cancellation at EVERY fsStep, and with a failing file-system operation at every checkpoint/manifest write and every rename. Every distinct resulting directory state S is judged: (I0) every fragment the checkpoint records is on disk with the recorded digest, and a directory holding fragments holds a checkpoint or a manifest; (I1) manifest.json present => the dump is complete and loadable; (I2) Dump(Resume=true) on a copy of S either fails and leaves the recorded fragments byte-identical or succeeds with a dump equal to the uninterrupted one (fast path: byte-identical; otherwise the full C18 oracle: manifest recomputed from the files, Load into an empty database, every entity exactly once) with no checkpoint and no *.tmp left; (I3) resume with a changed codec / zstd level / batch / shard / scrub / salt / driver / target list, with a source whose counts changed in a graph the checkpoint has counted, or with a planted extra file (six places) must fail and leave the recorded fragments intact. The resume of every state is itself captured at every fsStep (and, at selected states in quick / every state in thorough, re-run with database errors, cancellations and file-system errors), and the resulting states are judged in the same way until no new state appears (crash depth unbounded, states memoised by content modulo the run's start timestamp). Thorough tier additionally: faults in the resume at EVERY state, three cut points per torn write, and a cross-check with real process kills (the dump in a child process under strace, SIGKILL on entering each file-system system call; the directories left behind go through the same oracle). Evidence counts crash points. Non-trivial = the crash state's checkpoint shows a current phase with >= 1 committed fragment and >= 1 fragment still to be published; distinct = (kind, site, occurrence, chain of earlier crashes, configuration = codec/scrub/batch/shard/graph sizes).",
+		"rapid-generated fakedb databases (1-3 named graphs incl. names that need path escaping, <= 12 entities in total, ids with gaps and interleaved between graphs, property values of every JSON shape incl. keys the scrubber rewrites) x compression {none,gzip,zstd} x batch size and shard size drawn from {1,2,3,count-1,count,count+1,count/2,1000} x scrub {none, full}. Per case ONE uninterrupted dump is run with hook H2 active; the output directory is captured before EVERY file-system mutation (fsStep site) = what a kill -9 there leaves; torn variants (file empty / half written) are derived for every write-type step; in addition the dump is re-run with a database error at EVERY read transaction and at EVERY delivered record, with a context cancellation at EVERY fsStep, and with a failing file-system operation at every checkpoint/manifest write and every rename; the clean-up steps these failing runs go through (abort, unpublish, temp removal) are crash points too. Every distinct resulting directory state S is judged: (I0) every fragment the checkpoint records is on disk with the recorded digest, and a directory holding fragments holds a checkpoint or a manifest; (I1) manifest.json present => the dump is complete and loadable; (I2) Dump(Resume=true) on a copy of S either fails and leaves the recorded fragments byte-identical or succeeds with a dump equal to the uninterrupted one (fast path: byte-identical; otherwise the full C18 oracle: manifest recomputed from the files, Load into an empty database, every entity exactly once) with no checkpoint and no *.tmp left; (I3) resume with a changed codec / zstd level / batch / shard / scrub / salt / driver / target list, with a source whose counts changed in a graph the checkpoint has counted, or with a planted extra file (six places) must fail and leave the recorded fragments intact. The resume of every state is itself captured at every fsStep (and, at selected states in quick / every state in thorough, re-run with database errors, cancellations and file-system errors), and the resulting states are judged in the same way until no new state appears (crash depth unbounded, states memoised by content modulo the run's start timestamp). Thorough tier additionally: faults in the resume at EVERY state, three cut points per torn write, and a cross-check with real process kills (the dump in a child process under strace, SIGKILL on entering each file-system system call; the directories left behind go through the same oracle). Evidence counts crash points. Non-trivial = the crash state's checkpoint shows a current phase with >= 1 committed fragment and >= 1 fragment still to be published; distinct = (kind, site, occurrence, chain of earlier crashes, configuration = codec/scrub/batch/shard/graph sizes).",
 		"the file system applies operations in program order and what has been written survives a process kill (no fsync / power-loss modelling); rename, mkdir and unlink are atomic; a write may be torn at any byte (modelled: empty and half-written)",
 		"fakedb stands in for a DAWGS driver; the source database is quiescent during dump and resume except where the check changes it on purpose",
 		"'the source changed' is judged for graphs whose counts the checkpoint has recorded (completed or current); only count-changing modifications are in scope",
@@ -108,6 +108,8 @@ type explorer struct {
 	refused   int
 	slowPath  int
 
+	recordErrorPathOnly bool // dump(): capture the directory only at clean-up steps
+
 	variantsRun         int
 	variantsOnResumable int
 
@@ -176,7 +178,7 @@ func (x *explorer) dump(dir string, resume bool, v *variant, faults []fakedb.Fau
 	retriever.VerifFSStep = func(site string) {
 		n++
 		occ[site]++
-		if record {
+		if record && (!x.recordErrorPathOnly || isErrorPathSite(site)) {
 			st, err := readState(dir)
 			if err != nil && hookErr == nil {
 				hookErr = err
@@ -215,6 +217,29 @@ type item struct {
 
 func isWriteSite(site string) bool {
 	return strings.HasSuffix(site, ".write") || strings.HasSuffix(site, ".flush") || strings.HasSuffix(site, ".abort-flush")
+}
+
+// isErrorPathSite: file-system steps that only run while a failure is being handled.
+func isErrorPathSite(site string) bool {
+	switch site[strings.LastIndex(site, ".")+1:] {
+	case "abort-flush", "abort-remove", "unpublish", "remove-temp":
+		return site != "resume.remove-temp"
+	}
+	return false
+}
+
+// withoutPlantedDirs drops the directory the harness puts in the way to make a write fail.
+func withoutPlantedDirs(s state) state {
+	var out state
+	out.absent = s.absent
+	for _, e := range s.entries {
+		if e.Dir && (e.Path == ckptTmp || e.Path == manifestTmp) {
+			continue
+		}
+		out.entries = append(out.entries, e)
+	}
+	out.seal()
+	return out
 }
 
 func hasPrefix(b, prefix []byte) bool {
@@ -294,6 +319,8 @@ func (x *explorer) checkHooksComplete(run dumpRun, what string) {
 // every fsStep, and a failing file-system operation at every checkpoint/manifest write and rename.
 func (x *explorer) faultedRuns(from *state, clean dumpRun, depth int, parent string) ([]item, error) {
 	var out []item
+	x.recordErrorPathOnly = true
+	defer func() { x.recordErrorPathOnly = false }()
 	label := func(s string) string {
 		if parent == "" {
 			return s
@@ -324,6 +351,17 @@ func (x *explorer) faultedRuns(from *state, clean dumpRun, depth int, parent str
 			}
 		}
 		out = append(out, item{st: run.final, kind: kind, site: site, occ: occ, depth: depth, chain: lbl})
+		// a crash while the failure is being handled: the clean-up steps of the error path
+		for _, s := range run.steps {
+			if !isErrorPathSite(s.Site) {
+				continue
+			}
+			st := s.Before
+			if kind == "fserr" {
+				st = withoutPlantedDirs(st)
+			}
+			out = append(out, item{st: st, kind: "fs", site: s.Site, occ: s.Occ, depth: depth, chain: fmt.Sprintf("%s > %s#%d", lbl, s.Site, s.Occ)})
+		}
 		return nil
 	}
 	for _, op := range []struct {
@@ -335,7 +373,7 @@ func (x *explorer) faultedRuns(from *state, clean dumpRun, depth int, parent str
 			if err != nil {
 				return nil, err
 			}
-			run := x.dump(dir, from != nil, nil, []fakedb.Fault{{Op: op.op, N: n, Err: errInjected}}, false, nil)
+			run := x.dump(dir, from != nil, nil, []fakedb.Fault{{Op: op.op, N: n, Err: errInjected}}, true, nil)
 			if err := finish(dir, run, "dberr", string(op.op), n); err != nil {
 				return nil, err
 			}
@@ -347,7 +385,7 @@ func (x *explorer) faultedRuns(from *state, clean dumpRun, depth int, parent str
 		if err != nil {
 			return nil, err
 		}
-		run := x.dump(dir, from != nil, nil, nil, false, func(n int, _ string, _ string, cancel context.CancelFunc) {
+		run := x.dump(dir, from != nil, nil, nil, true, func(n int, _ string, _ string, cancel context.CancelFunc) {
 			if n == at {
 				cancel()
 			}
@@ -398,7 +436,7 @@ func (x *explorer) faultedRuns(from *state, clean dumpRun, depth int, parent str
 			return nil, err
 		}
 		undo := func() {}
-		run = x.dump(dir, from != nil, nil, nil, false, func(n int, _ string, dir string, _ context.CancelFunc) {
+		run = x.dump(dir, from != nil, nil, nil, true, func(n int, _ string, dir string, _ context.CancelFunc) {
 			if n == at {
 				undo = trip(dir)
 			}
@@ -1060,7 +1098,7 @@ func explore(c Case) (evid.Info, error) {
 
 func TestC19Enumerate(t *testing.T) {
 	evid.R.Extra("exhaustive_crash_points_per_case", true)
-	n := evid.R.N(24, 16)
+	n := evid.R.N(20, 16)
 	if v, err := strconv.Atoi(os.Getenv("C19_N")); err == nil && v > 0 {
 		n = v // development aid
 	}
